@@ -65,7 +65,11 @@ func collectNodes(p *pkg, pname string) []*cnode {
 				if r != "" {
 					n = pname + "." + r + "." + x.Name.Name
 				}
-				out = append(out, &cnode{name: n, hash: h8(squeeze(p.show(stripLogging(x)))), body: x, pkg: pname, short: x.Name.Name, isFn: true, recv: r})
+				hs := h8(squeeze(p.show(stripLogging(x))))
+				if genProved[n] {
+					hs = "gen" // pinned by its GenCheck obligation instead (the edges still come from the current body)
+				}
+				out = append(out, &cnode{name: n, hash: hs, body: x, pkg: pname, short: x.Name.Name, isFn: true, recv: r})
 			case *ast.GenDecl:
 				if x.Tok == token.IMPORT {
 					continue
